@@ -41,6 +41,11 @@ MUTANTS = [
  ("M9-interpreter-lowering-drop-pops-twice", "internal/engine/interpreter/compiler.go", None, None),
  ("M10-decoder-export-index-not-read", "internal/wasm/binary/export.go",
   "if ret.Index, _, err = leb128.DecodeUint32(r); err != nil {", "if ret.Index, _, err = leb128.DecodeUint32(r); err != nil && false {"),
+ ("M11-start-index-check-dropped", "internal/wasm/module.go", None, None),
+ ("M12-export-function-index-off-by-one", "internal/wasm/module.go", None, None),
+ ("M13-leb-i33-reads-six-bytes", "internal/leb128/leb128.go", "\tfor shift < 35 {", "\tfor shift < 42 {"),
+ ("M14-validator-if-without-else-result-check-dropped", "internal/wasm/func_validation.go",
+  "if !bytes.Equal(bl.blockType.Results, bl.blockType.Params) {", "if false && !bytes.Equal(bl.blockType.Results, bl.blockType.Params) {"),
 ]
 
 def apply(name, path, old, new):
@@ -63,6 +68,14 @@ def apply(name, path, old, new):
         m = re.search(r'(case OpcodeGlobalGet:.*?)if uint32\(len\(globals\)\) <= id \{', s, re.S)
         assert m, "M8 anchor"
         s = s[:m.end(1)] + "if uint32(len(globals)) < id {" + s[m.end():]
+    elif name.startswith("M11"):
+        m = re.search(r'func \(m \*Module\) validateStartSection\(\) error \{.*?\n\}', s, re.S)
+        assert m, "M11 anchor"
+        s = s[:m.start()] + "func (m *Module) validateStartSection() error {\n\treturn nil\n}" + s[m.end():]
+    elif name.startswith("M12"):
+        old = "if index >= uint32(len(functions)) {"
+        assert s.count(old) >= 1, "M12 anchor"
+        s = s.replace(old, "if index > uint32(len(functions)) {", 1)
     elif name.startswith("M9"):
         old = "\tcase wasm.OpcodeDrop:\n"
         assert s.count(old) == 1, "M9 anchor"
